@@ -267,12 +267,16 @@ class Environment:
                 # Until event has already been processed.
                 return until.value
 
-            # if until is an event and it has not been processed.
-            until.callbacks.append(StopSimulation.callback)
-
         try:
             while True:
                 self.step()
+                if until is not None and until.callbacks is None:
+                    # Stop only after the whole step in which `until` was
+                    # processed: raising from inside its callback list would
+                    # skip every waiter registered on it after this call.
+                    if until._ok:
+                        return until._value
+                    raise until._value
         except StopSimulation as exc:
             return exc.args[0]  # == until.value
         except EmptySchedule:
